@@ -240,6 +240,62 @@ func combos(items []string, k int) [][]string {
 	return out
 }
 
+// writerScenario: the shared drpcwire.Writer by itself, used by two goroutines at once (it is
+// documented as safe for that): every frame handed to it arrives whole, writes never overlap, and
+// the bytes of each goroutine's frames are intact.
+func writerScenario(size int) *mc.Scenario {
+	name := fmt.Sprintf("writer[two goroutines write frames to one drpcwire.Writer of size %d, then flush]", size)
+	body := func() {
+		c, _ := tr.New("cli", "srv", tr.Options{Cap: -1, TwoStep: true})
+		sched.Cur().State()["end"] = c
+		w := drpcwire.NewWriter(c, size)
+		var wg vs.WaitGroup
+		for g := 0; g < 2; g++ {
+			g := g
+			wg.Add(1)
+			vs.Go(fmt.Sprintf("writer%d", g), func() {
+				for k := 0; k < 2; k++ {
+					data := enc.Payload(byte('a'+g), 0, byte(k), enc.MinPayload)
+					_ = w.WriteFrame(drpcwire.Frame{Data: data, ID: drpcwire.ID{Stream: uint64(1 + g), Message: uint64(1 + k)}, Kind: drpcwire.KindMessage, Done: true})
+				}
+				_ = w.Flush()
+				wg.Done()
+			})
+		}
+		wg.Wait()
+	}
+	check := func(e *sched.Exec) string {
+		if len(e.Panics) > 0 {
+			return "panic: " + e.Panics[0]
+		}
+		c := e.State()["end"].(*tr.End)
+		var all []byte
+		for _, b := range c.Log {
+			all = append(all, b...)
+		}
+		frames, rest, r := refwire.ParseAll(all)
+		if r == refwire.Bad || len(rest) > 0 {
+			return fmt.Sprintf("the bytes written by the Writer are not whole frames (%d parsed, %d bytes left)", len(frames), len(rest))
+		}
+		if len(frames) != 4 {
+			return fmt.Sprintf("4 frames were handed to the Writer, %d are on the transport", len(frames))
+		}
+		seen := map[string]bool{}
+		for _, f := range frames {
+			t, _, q, verr := enc.Verify(f.Data)
+			if verr != nil || uint64(t-'a')+1 != f.ID.Stream || uint64(q)+1 != f.ID.Message || seen[string(f.Data)] {
+				return fmt.Sprintf("frame %v on the transport is not one of the frames that were written (tag %c seq %d, verify: %v)", f, t, q, verr)
+			}
+			seen[string(f.Data)] = true
+		}
+		if c.ConcurrentWrites > 0 {
+			return "two Transport.Write calls were in flight at once"
+		}
+		return ""
+	}
+	return &mc.Scenario{Name: name, Body: body, Check: check, Model: sched.Preemption}
+}
+
 func basePlans(tier string) []mc.Plan {
 	var ps []mc.Plan
 	two := func(soft bool, split, wb int) wl.Config {
@@ -248,6 +304,9 @@ func basePlans(tier string) []mc.Plan {
 	cfgs := []wl.Config{two(false, 2, 1), two(true, 2, 1), two(true, 0, 0), two(true, 0, 8)}
 	if tier == "thorough" {
 		cfgs = append(cfgs, two(false, 2, 8), two(true, 2, 8), two(false, 0, 0))
+	}
+	for _, size := range []int{1, 20, 64} {
+		ps = append(ps, mc.Plan{Scen: writerScenario(size), Bounds: []int{0, 1, 2}})
 	}
 	clientActors := []string{"S1", "S2", "CS", "CL", "CA", "NX"}
 	for _, cfg := range cfgs {
